@@ -98,7 +98,7 @@ def earlier_write_with_custom_formatters(src):
         return
 
     def custom(grp, header, md, compression):
-        name = header.replace("/", "@@SLASH@@")
+        name = "metadata/" + header.replace("/", "@@SLASH@@")
         grp.create_dataset(name, shape=(len(md),),
                            dtype=h5py.string_dtype(),
                            data=[b"written by a custom formatter"] * len(md))
